@@ -301,8 +301,9 @@ func runC12(env *lib.Env, rep *lib.Report) {
 	// --- leaves: full product of size assignments and tombstone patterns for n <= 3 (quick) / 4 (thorough)
 	fullN := 3
 	if env.Thorough() {
-		fullN = 5
+		fullN = 6
 	}
+	rep.Bounds["leaves, full product of value sizes x tombstone patterns x LSNs"] = fmt.Sprintf("every leaf of 0..%d cells", fullN)
 	for n := 0; n <= fullN; n++ {
 		nAssign := 1
 		for i := 0; i < n; i++ {
@@ -375,6 +376,31 @@ func runC12(env *lib.Env, rep *lib.Report) {
 					}
 					l := &c12Leaf{keys: keys, sizes: sz, deleted: del, lsn: 5, off: 4096, hasL: f&1 == 1, hasR: f&2 == 2, lOff: lo, rOff: ro}
 					r.check(fmt.Sprintf("leaf n=%d all-400 flags=%d lOff=%d rOff=%d", n, f, lo, ro), l.build(), n == maxLeaf, true)
+				}
+			}
+		}
+	}
+	// --- thorough: every value size 0..400 (uniform leaves of every cell count, and one cell of that size
+	// at every position among cells that fill the rest of a 400-byte budget), plain and with alternating tombstones
+	if env.Thorough() {
+		rep.Bounds["every value size"] = "0..400 bytes x 1..9 cells: uniform, and as the odd cell at every position; with and without tombstones"
+		for n := 1; n <= maxLeaf; n++ {
+			for size := 0; size <= maxValueSize; size++ {
+				for odd := -1; odd < n; odd++ {
+					for tomb := 0; tomb < 2; tomb++ {
+						keys, sz, del := mk(n, uint32(1000*n))
+						for i := range sz {
+							sz[i] = size
+							if odd >= 0 && i != odd {
+								sz[i] = maxValueSize - size
+							}
+							del[i] = tomb == 1 && (i+size)%2 == 0
+						}
+						flags := (n + size) % 4
+						l := &c12Leaf{keys: keys, sizes: sz, deleted: del, lsn: lsns[(size+n)%4], off: fileOffs[size%3],
+							hasL: flags&1 == 1, hasR: flags&2 == 2, lOff: sibOffs[size%4], rOff: sibOffs[(size+1)%4]}
+						r.check(fmt.Sprintf("leaf n=%d size=%d odd=%d tomb=%d", n, size, odd, tomb), l.build(), false, true)
+					}
 				}
 			}
 		}
@@ -560,7 +586,15 @@ func runC12(env *lib.Env, rep *lib.Report) {
 	}
 	rep.Bounds["updated leaves"] = "leaves of 1..4 cells, each cell rewritten by updateCell from every size to every size of the size set, once and twice"
 	// --- internal nodes
-	for _, n := range []int{0, 1, 2, 3, 144, 145, 289, maxInternalNodeCells} {
+	internalCounts := []int{0, 1, 2, 3, 144, 145, 289, maxInternalNodeCells}
+	if env.Thorough() {
+		internalCounts = internalCounts[:0]
+		for n := 0; n <= maxInternalNodeCells; n++ {
+			internalCounts = append(internalCounts, n)
+		}
+		rep.Bounds["internal cells"] = fmt.Sprintf("every count 0..%d and the halves of every split", maxInternalNodeCells)
+	}
+	for _, n := range internalCounts {
 		for _, base := range keyBases {
 			for li, lsn := range lsns {
 				node := &btreeNode{fileOffset: fileOffs[li%3]}
@@ -583,7 +617,11 @@ func runC12(env *lib.Env, rep *lib.Report) {
 		}
 	}
 	// internal node with a cell inserted in the middle (insertInternalCell)
-	for n := 2; n <= 4; n++ {
+	midMax := 4
+	if env.Thorough() {
+		midMax = 40
+	}
+	for n := 2; n <= midMax; n++ {
 		for pos := 0; pos < n; pos++ {
 			node := &btreeNode{fileOffset: 4096}
 			for i := 0; i < n; i++ {
